@@ -292,6 +292,53 @@ fn bulk_op(rng: &mut Rng, ctx: &Ctx, fam: &Fam, kind: &str, n: usize, with_edges
             pts.push(fam.point(rng, ctx));
         }
     }
+    if n >= 6 && rng.chance(350) {
+        // a straight hull side made of several collinear vertices, one or two vertices just
+        // outside of it, the rest far away on the other side (the loaders' hull walks must
+        // connect every visible edge of such a side)
+        pts.clear();
+        let k = 3 + rng.below(3) as usize;
+        // first gap 3 or 4 with a vertex one unit outside of it and strictly inside its diametral
+        // circle (the angle at that vertex between the segment's end points exceeds 90 degrees)
+        let g = 3 + rng.below(2) as i64;
+        let mut y = 0i64;
+        for i in 0..k {
+            pts.push((0.0, y as f64));
+            y += if i == 0 { g } else { 1 + rng.below(3) as i64 };
+        }
+        let ymax = pts[k - 1].1 as i64;
+        let along = if rng.chance(500) { 1 } else { g - 1 };
+        pts.push((1.0, along as f64));
+        if rng.chance(800) {
+            // a vertex beyond the far end, slightly on the inner side
+            pts.push((-1.0, (ymax + 1 + rng.below(2) as i64) as f64));
+        }
+        // two or three far vertices: the sweep centre stays close to the side
+        for i in 0..2 + rng.below(2) {
+            let yy = if i == 0 { rng.range(-1, 2) } else { ymax + rng.range(-1, 4) };
+            pts.push((-(9 + rng.below(5) as i64) as f64, yy as f64));
+        }
+        // shuffle, then a random symmetry of the square
+        for i in (1..pts.len()).rev() {
+            let j = rng.below(i as u64 + 1) as usize;
+            pts.swap(i, j);
+        }
+        let sym = rng.below(8);
+        for q in pts.iter_mut() {
+            let (mut a, mut b) = *q;
+            if sym & 1 != 0 {
+                a = -a;
+            }
+            if sym & 2 != 0 {
+                b = -b;
+            }
+            if sym & 4 != 0 {
+                std::mem::swap(&mut a, &mut b);
+            }
+            *q = (a, b);
+        }
+    }
+    let n = pts.len();
     let mut t = vec![s("bulk"), s(kind), n.to_string()];
     for (i, p) in pts.iter().enumerate() {
         t.push(ctok(tag, p.0));
@@ -512,8 +559,33 @@ fn query(rng: &mut Rng, ctx: &mut Ctx, fam: &Fam, class: &str) {
         }
         "conqp" => {
             if ctx.tri.kind() == "cdt" {
-                let p = fam.qpoint(rng, ctx);
-                let q = fam.qpoint(rng, ctx);
+                let mut p = fam.qpoint(rng, ctx);
+                let mut q = fam.qpoint(rng, ctx);
+                if nv >= 3 && rng.chance(350) {
+                    // a segment that stays outside of the hull: from a corner region of the
+                    // bounding box a quarter of the way towards a point of the box
+                    let (mut x0, mut y0, mut x1, mut y1) = (f64::MAX, f64::MAX, f64::MIN, f64::MIN);
+                    for i in 0..nv {
+                        let b = ctx.tri.pos_bits(i);
+                        let (x, y) = (val(tag, b.0), val(tag, b.1));
+                        x0 = x0.min(x);
+                        y0 = y0.min(y);
+                        x1 = x1.max(x);
+                        y1 = y1.max(y);
+                    }
+                    let ext = (x1 - x0).max(y1 - y0).max(1e-300);
+                    let a = *rng.pick(&[0.25, 0.5, 1.0]) * ext;
+                    let b = *rng.pick(&[0.25, 0.5, 1.0]) * ext;
+                    p = match rng.below(4) {
+                        0 => (x0 - a, y0 - b),
+                        1 => (x1 + a, y0 - b),
+                        2 => (x1 + a, y1 + b),
+                        _ => (x0 - a, y1 + b),
+                    };
+                    let r = (x0 + rng.unit() * (x1 - x0), y0 + rng.unit() * (y1 - y0));
+                    let t = *rng.pick(&[0.25, 0.5, 0.125]);
+                    q = (p.0 + (r.0 - p.0) * t, p.1 + (r.1 - p.1) * t);
+                }
                 let op = *rng.pick(&["isect", "confp"]);
                 ctx.op(vec![s(op), ctok(tag, p.0), ctok(tag, p.1), ctok(tag, q.0), ctok(tag, q.1)]);
             }
@@ -926,6 +998,19 @@ pub fn history(mode: &str, idx: u64, rng: &mut Rng, thorough: bool, timeout_ms: 
             };
             // no removals with hierarchy generators here: keeps the known hint-generator defect out of query checks
             build_some(rng, &mut ctx, &fam, &mut counter, nb, hint == "last");
+            if mode == "conq" && fam.name == "grid" && rng.chance(400) {
+                // constraint edges on the convex hull: the bounding rectangle of the grid as a
+                // closed constraint polygon (only when nothing in the way makes it cross)
+                let tag = ctx.tri.tag();
+                let (lo, hi) = (-3.0, fam.n as f64 + 2.0);
+                let mut t = vec![s("conedges"), s("1"), s("4")];
+                for (i, (x, y)) in [(lo, lo), (hi, lo), (hi, hi), (lo, hi)].iter().enumerate() {
+                    t.push(ctok(tag, *x));
+                    t.push(ctok(tag, *y));
+                    t.push((40 + i as u64).to_string());
+                }
+                ctx.op(t);
+            }
             let nq = len(rng, 4, 16);
             for _ in 0..nq {
                 if ctx.dead {
